@@ -40,6 +40,10 @@ type C20Case struct {
 	// Stack: "" plain listener | "pp" PROXY-protocol listener | "tls" https listener - the limits belong to the
 	// listener whatever else is stacked on it
 	Stack string `json:"stack,omitempty"`
+	// CounterFlow: both limits are set to the same 1 MiB/s and, while the measured transfers run, as many connections
+	// move the same volume in the opposite direction (plain requests): each direction has an allowance of its own, so
+	// the measured one still finishes in about ExtraMs.
+	CounterFlow bool `json:"counter_flow,omitempty"`
 }
 
 func genC20(t *rapid.T) C20Case {
@@ -71,6 +75,10 @@ func genC20(t *rapid.T) C20Case {
 			c.ReadLimit, c.WriteLimit = rate, other
 		} else {
 			c.WriteLimit, c.ReadLimit = rate, other
+		}
+		if c.TimeoutMs == 0 && c.WindowMs == 0 && rapid.IntRange(0, 3).Draw(t, "counterflow") == 0 {
+			c.CounterFlow = true
+			c.ReadLimit, c.WriteLimit = 1<<20, 1<<20
 		}
 	}
 	return c
@@ -257,6 +265,16 @@ func runC20once(c C20Case) (fails []vstat.Failure) {
 	}
 	res := make([]connRes, c.Conns)
 	var wg sync.WaitGroup
+	var cfWG sync.WaitGroup
+	if c.CounterFlow {
+		for i := 0; i < c.Conns; i++ {
+			cfWG.Add(1)
+			go func(i int) {
+				defer cfWG.Done()
+				c20CounterFlow(px.Addr, host, c.Stack, ca, !down, per, fmt.Sprintf("%d-cf%d", id, i))
+			}(i)
+		}
+	}
 	for i := 0; i < c.Conns; i++ {
 		wg.Add(1)
 		go func(i int) {
@@ -383,6 +401,14 @@ func runC20once(c C20Case) (fails []vstat.Failure) {
 	}
 	wg.Wait()
 	took := time.Since(t0)
+	if c.CounterFlow {
+		// each direction has its own allowance: the traffic of the other one does not use this one's up
+		if bound := time.Duration(c.ExtraMs)*time.Millisecond + 2500*time.Millisecond; took > bound {
+			fails = append(fails, vstat.Failf(key("too-slow:counter-flow"), "%d bytes (burst + %d ms worth of the limit) took %v while the same volume moved in the opposite direction; with an allowance per direction it takes about %d ms, a shared one needs more than 4 s (read=%d write=%d)",
+				total, c.ExtraMs, took.Round(time.Millisecond), c.ExtraMs, c.ReadLimit, c.WriteLimit))
+		}
+		cfWG.Wait()
+	}
 	// ---- data intact
 	var all []c20Sample
 	for i, r := range res {
@@ -416,8 +442,60 @@ func runC20once(c C20Case) (fails []vstat.Failure) {
 	return fails
 }
 
+// c20CounterFlow moves n bytes through the proxy in the given direction with a plain request; nothing about it is judged.
+func c20CounterFlow(proxyAddr, host, stack string, ca *CA, down bool, n int, vid string) {
+	tc, err := Dial(proxyAddr)
+	if err != nil {
+		return
+	}
+	defer tc.Close()
+	tc.SetDeadline(time.Now().Add(30 * time.Second))
+	if o, err := getC20Origin(); err == nil {
+		defer func() {
+			o.mu.Lock()
+			delete(o.up, vid)
+			delete(o.bad, vid)
+			o.mu.Unlock()
+		}()
+	}
+	var conn net.Conn = tc
+	switch stack {
+	case "pp":
+		tc.Write([]byte(ppLine))
+	case "tls":
+		t := tlsClientFor(tc, ca)
+		if t.Handshake() != nil {
+			return
+		}
+		conn = t
+	}
+	br := bufio.NewReaderSize(conn, 64<<10)
+	if down {
+		fmt.Fprintf(conn, "GET http://%s/dl?n=%d HTTP/1.1\r\nHost: %s\r\nX-Vid: %s\r\nX-Pid: 1\r\n\r\n", host, n, host, vid)
+		if _, err := ReadResponseHead(br, "GET"); err != nil {
+			return
+		}
+		io.CopyN(io.Discard, br, int64(n))
+		return
+	}
+	fmt.Fprintf(conn, "POST http://%s/ul HTTP/1.1\r\nHost: %s\r\nX-Vid: %s\r\nX-Pid: 1\r\nContent-Length: %d\r\n\r\n", host, host, vid, n)
+	buf := make([]byte, 64<<10)
+	for off := 0; off < n; {
+		k := min(len(buf), n-off)
+		FillPayload(buf[:k], 1, off)
+		if _, err := conn.Write(buf[:k]); err != nil {
+			return
+		}
+		off += k
+	}
+	ReadResponse(br, "POST")
+}
+
 func classifyC20(c C20Case) (bool, string, []string) {
 	cls := []string{"dir-" + c.Dir, fmt.Sprintf("conns=%d", c.Conns), "listener-" + c.Stack}
+	if c.CounterFlow {
+		cls = append(cls, "counter-flow")
+	}
 	if c.WindowMs > 0 {
 		cls = append(cls, "limit-below-one-io-call")
 	}
